@@ -84,8 +84,9 @@ def select9Words (len ones : Nat) : Nat :=
 
 /-! ## Elias–Fano (no selection structures) -/
 
-/-- number of lower bits: `if n > 0 && u >= n { (u / n).ilog2() } else { 0 }` -/
-def efL (n u : Nat) : Nat := if 0 < n ∧ n ≤ u then Nat.log2 (u / n) else 0
+/-- number of lower bits: `if u >= n.max(1) { (u / n.max(1)).ilog2() } else { 0 }`
+(an empty sequence is sized like a sequence of one element; /repo 76fce19) -/
+def efL (n u : Nat) : Nat := if max n 1 ≤ u then Nat.log2 (u / max n 1) else 0
 
 /-- `BitFieldVec::new(l, n)` -/
 def efLowWords (n u : Nat) : Nat := bfvWords 64 (efL n u) n
@@ -109,6 +110,13 @@ def vfuncShardCells (l s : Nat) : Nat := (l + 2) <<< s
 /-- `new_data(bit_width, num_vertices * num_shards)` -/
 def vfuncCells (l s shards : Nat) : Nat := vfuncShardCells l s * shards
 
+/-- MWHC logics (`Mwhc3Shards`, `Mwhc3NoShards`, feature `mwhc`): three segments of `seg_size`
+vertices per shard; `seg_size = max 1 ⌈1.23·max_shard / 3⌉`, rounded up to a multiple of 128
+when there is more than one shard -/
+def mwhcSeg (V shards : Nat) : Nat := if shards = 1 then V else divCeil V 128 * 128
+
+def mwhcCells (seg shards : Nat) : Nat := 3 * seg * shards
+
 /-- bytes of the backend: `BitFieldVec::<W>::new_unaligned(b, cells)` or `Box<[W]>` -/
 def vfuncBytes (boxed : Bool) (W b cells : Nat) : Nat :=
   if boxed then cells * (W / 8) else bfvUnalignedWords W b cells * (W / 8)
@@ -125,7 +133,8 @@ def fuseC (m : Nat) : Nat × Nat :=
   else if m ≤ 20000000 then (111, 100) else (1105, 1000)
 
 def cBound (logic : String) (n m : Nat) : Nat × Nat :=
-  if n ≤ 100 then (123, 100)
+  if logic = "mwhcshards" ∨ logic = "mwhcnoshards" then (123, 100)
+  else if n ≤ 100 then (123, 100)
   else if logic = "shards" ∨ logic = "fullsigs" then
     if n ≤ 800000 then (1125, 1000) else fuseC m
   else
@@ -136,6 +145,11 @@ def cBound (logic : String) (n m : Nat) : Nat × Nat :=
 `V = ⌈c·m⌉` for some real `c ≤ cn/cd` -/
 def vfuncHyp (cn cd n shards s l m V : Nat) : Bool :=
   l == vfuncL V s && decide (shards * 100 * m ≤ 101 * n) && decide (cd * V ≤ cn * m + cd)
+
+/-- the same for the MWHC logics: `V = max 1 ⌈1.23·m/3⌉` is the unrounded segment size -/
+def mwhcHyp (n shards seg m V : Nat) : Bool :=
+  seg == mwhcSeg V shards && decide (shards * 100 * m ≤ 101 * n) && decide (300 * V ≤ 123 * m + 300)
+    && decide (1 ≤ V)
 
 /-! ## fixed struct headers (`size_of` of the struct minus the wrapped structure; x86-64 layout,
 re-measured by every run through the `calib` ops) -/
@@ -170,6 +184,9 @@ def header : String → Option Nat
   | "v:filter:shards:64:bfv" => some 96
   | "v:filter:noshards2:64:bfv" => some 88
   | "v:filter:noshards1:32:bfv" => some 80
+  | "v:func:mwhcshards:64:bfv" => some 80
+  | "v:func:mwhcnoshards:64:bfv" => some 72
+  | "v:filter:mwhcnoshards:8:box" => some 48
   | _ => none
 
 end Sux.Space
